@@ -187,6 +187,9 @@ def gen_case(rng, cid, opts, cli_groups, cfg_groups, digits=5, save=False, allow
         chosen[name] = rec
     rng.shuffle(argv)
     rng.shuffle(cfg)
+    for name, r in chosen.items():      # multi-line vector options: the file order is what counts
+        if "cfg" in r and len(r["cfg"]) > 1:
+            r["cfg"] = [l.split("=", 1)[1] for l in cfg if l.startswith(name + "=")]
     flat = [t for a in argv for t in a]
     use_cfg = bool(cfg) or rng.random() < 0.3
     flat = (["--config", "@CFG@"] if use_cfg else ["--config", "/dev/null"]) + flat if rng.random() < 0.5 else \
